@@ -254,7 +254,14 @@ func propC03(r *kernel.Run) {
 		}); p {
 			r.Violate("no-panic", "validate-panic/"+site, "request validation panicked (%s, %s): %s", corrupt, fieldCase, msg)
 		}
-		calls := len(w.St.Calls) - before
+		// "processed" = the request got as far as an authorization decision or a storage write: any Store/Remove, or a
+		// lookup of the data such a decision rests on (node records, tokens). Reading the roots is not that.
+		calls := 0
+		for _, c := range w.St.Calls[before:] {
+			if c.Kind == "store" || c.Kind == "remove" || c.Kind == "loadbynodeid" || c.Type == "NodeInformation" || c.Type == "ServerLedActivationToken" {
+				calls++
+			}
+		}
 		r.Count("cases", 1)
 		tname := [...]string{"authorize", "fetch"}[target]
 		r.Count("ops."+tname, 1)
@@ -274,7 +281,7 @@ func propC03(r *kernel.Run) {
 		switch {
 		case !expectAccept && !(onEdge && corrupt == "none" && fieldsOK):
 			if processed {
-				r.Violate("reject-before-storage", "processed-invalid/"+rejectClass(corrupt, fieldCase, place), "an invalid request reached storage (%d calls): %s", calls, desc)
+				r.Violate("reject-before-storage", "processed-invalid/"+rejectClass(corrupt, fieldCase, place), "an invalid request got as far as an authorization lookup or a storage write (%d such calls): %s", calls, desc)
 			}
 			if err == nil {
 				r.Violate("reject-before-storage", "accepted-invalid/"+rejectClass(corrupt, fieldCase, place), "an invalid request was not refused (resp=%v ni=%v): %s", resp != nil, ni != nil, desc)
